@@ -281,3 +281,6 @@ def _borrowed_c02(an: Analysis) -> None:
     from . import c02
 
     borrow(an, c02.check, {"C02.1": "C06.9"}, keep=lambda f: "TaskGroupContext" in f.at or "TaskGroupContext" in f.message)
+    # C02.4: a scope whose entering fails after its task group was entered leaves that group again - otherwise the group stays
+    # current for the caller: tasks spawned afterwards join a group nobody ever waits for (or cancels)
+    borrow(an, c02.check, {"C02.4": "C06.10"})
